@@ -169,14 +169,6 @@ func c31Check(c c31Case, r *ev.Rec) error {
 		all += c.Files[k]
 	}
 	changed, knownApplied := false, false
-	for _, k := range sortedKeys(c.Files) {
-		if (c31MidDeclLineComment(c.Files[k]) || c30LineCommentInBrackets(c.Files[k])) && r.Known("line-comment-inside-declaration", "") {
-			// recorded finding, recognised on the input: a // comment between the tokens of one declaration can end
-			// up in front of the declaration's next token on the same line and comment it out
-			r.Case(ev.JSONFP(c.Files), false, "excluded-line-comment-inside-declaration")
-			return nil
-		}
-	}
 	for _, legacy := range []bool{false, true} {
 		preset := "Default"
 		if legacy {
@@ -207,6 +199,15 @@ func c31Check(c c31Case, r *ev.Rec) error {
 				// and only re-indents some has never been seen on the unchanged tree (0 of 8170 occurrences in the
 				// thorough tier) and is not tolerated.
 				knownApplied = true
+				out2 = out
+			}
+			if out2 != out && (c31MidDeclLineComment(c.Files[k]) || c30LineCommentInBrackets(c.Files[k])) && r.Known("line-comment-inside-declaration", "") {
+				// recorded finding, recognised on the input: a // comment between the tokens of one declaration is laid
+				// out differently by a second pass (the Legacy preset turns it into a block comment only then). Since
+				// the printer fix that keeps the following token off the comment's line, only idempotence is
+				// affected: the formatted text must still parse and compile to the same descriptors (checked below).
+				knownApplied = true
+				r.Label("known:line-comment-inside-declaration")
 				out2 = out
 			}
 			if out2 != out && c30DropAllSpace(out2) != c30DropAllSpace(out) && c31SortedDecls(out2) == c31SortedDecls(out) && r.Known("file-order-needs-two-passes", "") {
